@@ -54,6 +54,13 @@ def main():
         d = os.path.join(SEEDED, n)
         meta = json.load(open(os.path.join(d, "meta.json")))
         props = [meta["property"]] + meta.get("also", [])
+        if "superseded" in meta:
+            # the change no longer breaks the property on the current tree (see meta.json); nothing to detect
+            results[n] = dict(property=meta["property"], summary=meta.get("summary", ""), repo_head=head, checks={}, detected=None,
+                              superseded=meta["superseded"])
+            json.dump(results, open(os.path.join(SEEDED, "RESULTS.json"), "w"), indent=1)
+            print(f"{n:28s} superseded by {meta['superseded'].get('by')}")
+            continue
         patch = os.path.join(d, "patch.diff")
         fresh_repo_copy(repo_copy)
         a = sh(f"git -C {repo_copy} apply --whitespace=nowarn {patch}")
